@@ -369,11 +369,14 @@ theorem C15_gen_node_sites :
   ⟨rfl, rfl⟩
 
 /-- Who writes the per-tick counters, anywhere in the code base: the five file-system methods the model follows
-(`C15_counters_step`, `C15_api_counters_step`), the reset in `pre_timestep`, and the database service's ENCRYPT query
+(`C15_counters_step`, `C15_api_counters_step`), the resets in `setup_for_episode` (start of the episode) and `pre_timestep`
+(start of every tick), and the database service's ENCRYPT query
 (one creation and one deletion booked directly — NOT modelled here; it still falls under the reset). -/
 theorem C15_gen_counter_writers :
     Gen.FileSystemNode.counterWriters =
-      [("simulator/file_system/file_system.py:FileSystem.create_file", "self.num_file_creations += 1"),
+      [("simulator/file_system/file_system.py:FileSystem.setup_for_episode", "self.num_file_creations = 0"),
+       ("simulator/file_system/file_system.py:FileSystem.setup_for_episode", "self.num_file_deletions = 0"),
+       ("simulator/file_system/file_system.py:FileSystem.create_file", "self.num_file_creations += 1"),
        ("simulator/file_system/file_system.py:FileSystem.delete_file", "self.num_file_deletions += 1"),
        ("simulator/file_system/file_system.py:FileSystem.move_file", "self.num_file_deletions += 1"),
        ("simulator/file_system/file_system.py:FileSystem.move_file", "self.num_file_creations += 1"),
